@@ -36,6 +36,9 @@ func checkC35(c *Check) {
 		return
 	}
 	P := "pkg/rpc.PacketConn."
+	// (0) buffers: a reused buffer is resliced only to the capacity that was tested
+	growOrReslice(c, r, "packet/reused-buffer-capacity-tested-for-length-taken", "pkg/rpc.")
+	c.Floor("packet/reused-buffer-capacity-tested-for-length-taken", 1)
 	// (1) body reader
 	if ir := r.ir(P + "ReadPacketBodyUnlocked"); ir != nil {
 		pos := r.pos(ir.Info.Decl.Pos())
@@ -268,4 +271,99 @@ func checkC35(c *Check) {
 	c.Floor("packet/body-crc-dominates-success", 1)
 	c.Floor("packet/header-tests-dominate-success", 1)
 	c.Floor("packet/writer-header-words", 1)
+}
+
+// growOrReslice: the idiom `if cap(b) < G { b = make(T, A) } else { b = b[:E] }` (or with the reslice as the next
+// statement) is safe only when the capacity tested is the length taken: G, A and E must be the same expression
+// (E may be smaller by a non-negative constant). A smaller G lets b[:E] exceed the capacity for some buffer sizes.
+func growOrReslice(c *Check, r *repoCtx, rule string, pkgPrefix string) {
+	n := 0
+	for _, name := range sortedKeys(r.funcs) {
+		fi := r.funcs[name]
+		if !strings.HasPrefix(name, pkgPrefix) || fi.Decl.Body == nil {
+			continue
+		}
+		info := fi.Pkg.TypesInfo
+		isBuiltin := func(e ast.Expr, nm string) (*ast.CallExpr, bool) {
+			call, ok := ast.Unparen(e).(*ast.CallExpr)
+			if !ok {
+				return nil, false
+			}
+			id, ok := call.Fun.(*ast.Ident)
+			if !ok {
+				return nil, false
+			}
+			b, isB := info.Uses[id].(*types.Builtin)
+			return call, isB && b.Name() == nm
+		}
+		str := func(e ast.Expr) string { return types.ExprString(ast.Unparen(e)) }
+		resliceOf := func(st ast.Stmt, x string) (string, bool) {
+			as, ok := st.(*ast.AssignStmt)
+			if !ok || len(as.Lhs) != 1 || len(as.Rhs) != 1 || str(as.Lhs[0]) != x {
+				return "", false
+			}
+			se, ok := ast.Unparen(as.Rhs[0]).(*ast.SliceExpr)
+			if !ok || se.Low != nil || se.High == nil || str(se.X) != x {
+				return "", false
+			}
+			return str(se.High), true
+		}
+		var visit func(list []ast.Stmt)
+		visit = func(list []ast.Stmt) {
+			for i, st := range list {
+				is, ok := st.(*ast.IfStmt)
+				if !ok || is.Init != nil {
+					continue
+				}
+				be, ok := is.Cond.(*ast.BinaryExpr)
+				if !ok || be.Op != token.LSS {
+					continue
+				}
+				capCall, ok := isBuiltin(be.X, "cap")
+				if !ok || len(capCall.Args) != 1 {
+					continue
+				}
+				x, g := str(capCall.Args[0]), str(be.Y)
+				// then-branch: x = make(T, A)
+				alloc := ""
+				for _, t := range is.Body.List {
+					if as, ok := t.(*ast.AssignStmt); ok && len(as.Lhs) == 1 && len(as.Rhs) == 1 && str(as.Lhs[0]) == x {
+						if mk, ok := isBuiltin(as.Rhs[0], "make"); ok && len(mk.Args) >= 2 {
+							alloc = str(mk.Args[1])
+						}
+					}
+				}
+				if alloc == "" {
+					continue
+				}
+				taken, found := "", false
+				if eb, ok := is.Else.(*ast.BlockStmt); ok {
+					for _, t := range eb.List {
+						if e, ok := resliceOf(t, x); ok {
+							taken, found = e, true
+						}
+					}
+				}
+				if !found && i+1 < len(list) {
+					taken, found = resliceOf(list[i+1], x)
+				}
+				if !found {
+					continue
+				}
+				n++
+				ok = alloc == g && taken == g
+				c.Ob(rule, fi.Name()+"/"+x, ok, r.pos(is.Pos()), fmt.Sprintf("capacity tested against %s, allocated %s, resliced to %s: all three must be the same length", g, alloc, taken))
+			}
+		}
+		ast.Inspect(fi.Decl.Body, func(nd ast.Node) bool {
+			switch b := nd.(type) {
+			case *ast.BlockStmt:
+				visit(b.List)
+			case *ast.CaseClause:
+				visit(b.Body)
+			}
+			return true
+		})
+	}
+	c.Set("grow_or_reslice_sites", n)
 }
